@@ -398,7 +398,24 @@ int main(int argc, char** argv) {
             }
       for (int x = 0; x < 4; x++)
         for (int y = 0; y < 4; y++) M.m[x][y] = (double)Mi[x][y] + (double)Mf[x][y] * 1e-7;
-      Matrix4<double> X = r.chance(50) ? M.inverse() : Matrix4<double>(M).invert();
+      // uniform scaling by a power of two keeps the matrix strictly diagonally dominant and is exact in binary floating
+      // point: inverse(M * 2^k) * 2^k is inverse(M) again - pivots of 1e-11 or 1e+18 are as good as pivots near 1
+      static const int KS[] = {-34, -40, -100, -200, 30, 60, 200, -31};
+      double scale = (i % 4 == 3) ? ldexp(1.0, KS[r.below(8)]) : 1.0;
+      if (scale != 1.0)
+        for (int x = 0; x < 4; x++)
+          for (int y = 0; y < 4; y++) M.m[x][y] *= scale;
+      Matrix4<double> X;
+      try {
+        X = r.chance(50) ? M.inverse() : Matrix4<double>(M).invert();
+      } catch (const exception& e) {
+        vt::J je;
+        je.str("e", "invthrew").num("i", i).num("log2scale", (long long)ilogb(scale)).str("what", e.what());
+        tr.emit(je);
+      }
+      if (scale != 1.0)
+        for (int x = 0; x < 4; x++)
+          for (int y = 0; y < 4; y++) X.m[x][y] *= scale;
       if (i) {
         m += ","; mf += ","; xhi += ","; xlo += ",";
       }
